@@ -353,6 +353,15 @@ def check_pair(d1, d2, ck):
                 ck.run("prod(dtype=)", c, lambda: numpoly.prod(pm, dtype=d2), {(2,): want}, want.dtype, lab)
                 ck.run("method-prod(dtype=)", c, lambda: pm.prod(dtype=d2), {(2,): want}, want.dtype, lab)
             y1 = edge(d1, 1)
+            m1 = numpoly.polynomial_from_attributes([[1]], [e1])
+            m2 = numpoly.polynomial_from_attributes([[1]], [y1])
+            try:
+                want = numpy.multiply(e1, y1, dtype=d2)
+            except Exception:
+                want = None
+            if want is not None and m1.dtype == numpy.dtype(d1) == m2.dtype:
+                ck.run("multiply(dtype=)", c, lambda: numpoly.multiply(m1, m2, dtype=d2), {(2,): want}, want.dtype, lab)
+                ck.run("numpy.multiply(dtype=)", c, lambda: numpy.multiply(m1, m2, dtype=d2), {(2,): want}, want.dtype, lab)
             py = numpoly.polynomial_from_attributes([[0], [1]], [y1, e1], retain_coefficients=True)
             for name, uf in (("add(dtype=)", "add"), ("subtract(dtype=)", "subtract")):
                 npf = getattr(numpy, uf)
